@@ -13,7 +13,8 @@ rule("C01.a", "nodal rows: coefficients come from mapping['disp_factor'], column
               "selector pair (type == 'd' & node == n; time_step == t); right-hand side zeros and letter count use one counter", floor=5,
      props=["C01", "C18"])     # C18: the nodal price is the dual of exactly this row - a rescaled row has a rescaled dual
 rule("C01.b", "the default dispatch factor (column created when absent, NaN filled with 1) is established before the factor "
-              "column is read", floor=2)
+              "column is read - in every problem a portfolio sets up, so that the frames of the intervals of a split optimisation, which are "
+              "concatenated, all carry the column (a column present in some intervals only leaves NaN factors in the others)", floor=2, props=["C01", "C14"])
 rule("C01.d", "the dispatch report accumulates x[variable label] * disp_factor over rows selected by asset, type 'd' and node, "
               "with asset and node bound by the enclosing loops", floor=4)
 rule("C01.e", "every node name an asset writes into a mapping comes from its own nodes (so the portfolio registry knows it), or is "
